@@ -181,6 +181,15 @@ func (dw *DiskWriter) HandleChange(kind ChangeKind, p string, fi os.FileInfo, er
 		// hard link: also for devices and fifos, which the walk announces as
 		// links to the first member of their inode group
 		linkSrc := filepath.Join(dw.dest, statCopy.Linkname)
+		// the same holds for the directories above the link source: one
+		// that was announced but not written may be an older symlink, and
+		// the link would be made to (and the metadata applied to) an entry
+		// of the directory it points to
+		for dir := filepath.Dir(filepath.Clean(statCopy.Linkname)); dir != "." && dir != string(filepath.Separator); dir = filepath.Dir(dir) {
+			if dfi, err := os.Lstat(filepath.Join(dw.dest, dir)); err == nil && dfi.Mode()&os.ModeSymlink != 0 {
+				return errors.Errorf("invalid link %s to %s below symlink %s", p, statCopy.Linkname, dir)
+			}
+		}
 		srcFi, err := os.Lstat(linkSrc)
 		if err == nil && srcFi.Mode()&os.ModeSymlink != 0 {
 			// the link source was announced but not written by this
